@@ -14,7 +14,10 @@ found are counted as `undecided` and not executed.  Flat shapes (disk, ellipse) 
 Obligations per boolean test (gjk.gjk_intersection = jolt, gjk.gjk_intersection_libccd, mpr.mpr_intersection,
 gjk.gjk_nesterov_accelerated_intersection, gjk.gjk_nesterov_accelerated_primitives_intersection (5 primitive types)):
     true_on_clear_overlap, false_on_clear_gap, no_exception, terminates (watchdog or > 3000 support evaluations without return).
-Each native call runs in a forked grandchild of a pmap worker with a per-call watchdog (hang -> `terminates` of that call).
+Each native call runs in a forked grandchild of a pmap worker with a per-call watchdog (20 s of CPU time inside one call ->
+`terminates` of that call; CPU time, so a loaded machine cannot cause a failure); the parent never executes library code; when the
+time budget of the tier is used up the remaining scenes are reported as `skipped`.  The four/five tests run in the order listed
+on the same two collider objects (MeshGraph's support function is stateful: vertex cache).
 
 Replay of a failure input:  python bounded/c02.py --replay '<json of failure["input"]>'
 """
@@ -290,7 +293,7 @@ def _cpu_seconds(pid):
         return None
 
 
-def run_batch_guarded(scenes, evaluator, call_timeout=CALL_TIMEOUT, deadline=None, wall_timeout=None):
+def run_batch_guarded(scenes, evaluator, call_timeout=CALL_TIMEOUT, deadline=None, wall_timeout=None, max_timeouts=MAX_TIMEOUTS_PER_BATCH):
     """runs evaluator over the scenes in a forked child with a per-call watchdog.  The watchdog measures the CPU time the child
     spends inside ONE call (robust against a loaded machine: a busy hang burns CPU, a slow machine does not), plus a wall-clock
     limit of WALL_FACTOR * call_timeout for a call that blocks without using CPU.
@@ -301,7 +304,7 @@ def run_batch_guarded(scenes, evaluator, call_timeout=CALL_TIMEOUT, deadline=Non
     timeouts = 0
     wall_timeout = WALL_FACTOR * call_timeout if wall_timeout is None else wall_timeout
     while start < len(scenes):
-        if timeouts >= MAX_TIMEOUTS_PER_BATCH or (deadline is not None and time.time() > deadline):
+        if timeouts >= max_timeouts or (deadline is not None and time.time() > deadline):
             return results, incidents, list(range(start, len(scenes)))
         rfd, wfd = os.pipe()
         pid = os.fork()
@@ -410,13 +413,17 @@ def guarded_map(scenes, evaluator_name, jobs, call_timeout, budget, batch_size):
     return batches, out
 
 
-def warm_up(evaluator_name, scenes, timeout=300.0):
-    """compiles the jitted code / fills numba's on-disk cache in a guarded child (a hang there is reported as `terminates`)"""
+def warm_up(evaluator_name, scenes, timeout=120.0):
+    """compiles the jitted code / fills numba's on-disk cache in a guarded child.  A call that does not return within `timeout` s
+    of CPU time is reported as `terminates` and ends the warm-up; pool workers later pre-load only the scenes that came back"""
     global _WARM_SCENES
     t = time.time()
-    res, inc, skipped = run_batch_guarded(scenes, globals()[evaluator_name], call_timeout=timeout, wall_timeout=3 * timeout)
-    ok = not any(k in ("terminates", "harness") for _, _, k, _ in inc) and not skipped
-    _WARM_SCENES = scenes if ok else None
+    res, inc, skipped = run_batch_guarded(scenes, globals()[evaluator_name], call_timeout=timeout, wall_timeout=3 * timeout, max_timeouts=1)
+    bad = set(skipped) | {i for i, _, k, _ in inc if k in ("terminates", "harness", "no_exception")}
+    first_bad = min(bad) if bad else len(scenes)
+    clean = [sc for i, sc in enumerate(scenes) if i < first_bad]
+    ok = not bad
+    _WARM_SCENES = clean or None
     return ok, res, inc, time.time() - t
 
 
@@ -769,7 +776,7 @@ def main():
     t0 = time.time()
     rng = np.random.default_rng(a.seed)
     thorough = a.tier == "thorough"
-    reps_pair, reps_ident = (600, 40) if thorough else (22, 4)
+    reps_pair, reps_ident = (600, 40) if thorough else (44, 6)
     # scene construction + closed-form certificates: pure Python, one task per ordered type pair with its own sub-seed
     gen = C.pmap(_gen_task, [(a.seed, i, j, reps_pair) for i in range(len(TYPES)) for j in range(len(TYPES))], jobs=a.jobs, timeout=900)
     scenes = [s for part in gen for s in part]
@@ -788,7 +795,7 @@ def main():
     collect([wsc], [(wres, winc, [])], failures, stats)
     budget = (1050.0 if thorough else 135.0) - (time.time() - t0 - wt)     # the (cold-cache) JIT compile time of the warm-up is not charged
     batch_size = max(4, min(60, len(scenes) // (a.jobs * 6) + 1))
-    batches, out = guarded_map(scenes, "eval_scene", a.jobs, CALL_TIMEOUT if ok else 120.0, max(20.0, budget), batch_size)
+    batches, out = guarded_map(scenes, "eval_scene", a.jobs, CALL_TIMEOUT if ok else 90.0, max(20.0, budget), batch_size)
     collect(batches, out, failures, stats)
 
     allsc = {scene_key(s): s for s in scenes + wsc}
